@@ -884,6 +884,11 @@ impl Allocator {
                     Ok(self.mk_node(ObjectType::SmallAtom, new_val as usize))
                 } else {
                     let start = self.u8_vec.len();
+                    // the slice is copied to the heap, so it's subject to the
+                    // heap limit like every other heap allocation
+                    if start + self.ghost_heap + substr.len() > self.heap_limit {
+                        return Err(EvalErr::OutOfMemory);
+                    }
                     let end = start + substr.len();
                     self.u8_vec.extend_from_slice(substr);
                     let idx = self.atom_vec.len();
